@@ -117,6 +117,9 @@ def run(ctx):
         "exhaustive": ctx.tier == "thorough",
         "trusted_base": ["T1: tools/gen_tables.py calls validation.utils.types_are_comparable on all 11x14x11 triples (exhaustive)",
                          "T3: renderer scenario->JSON (harness/scenario.py); operand typing of the Coq model (Model/Rules.v: walk, promise_path_type, operand_type) is compared, not proved equal to the Python"]})
+    # comparisons whose operands reach into imported schemas (paths through imported edges and edge collections)
+    evaluated = engine.import_family(ctx, random.Random(ctx.seed + 4), 30 if ctx.tier == "quick" else 300,
+                                     what="T3 correspondence: comparison typing across import files vs Coq model (Model/Imports.v)") and evaluated
     if (not ok) and not ctx.violations:
         # the table theorem broke: look for the cells that changed and instantiate them
         found = search_table_cells(ctx)
